@@ -23,7 +23,7 @@ PROPS = {
                 "write; distinct = distinct digest of knobs + operation list.",
         "eval_extra": [], "probes": ["out-of-order file present", "compacted file (level>0) present", "size-triggered flush"],
         "assumptions": ["single client; background work runs only as scheduled operations", "integers inside +-2^53, no NaN/Inf"],
-        "quick": {"runs": 2400, "budget_s": 120, "workers": 14},
+        "quick": {"runs": 7000, "budget_s": 120, "workers": 14},
         "thorough": {"runs": 60000, "budget_s": 1500, "workers": 16},
     },
     "C01": {
@@ -101,14 +101,14 @@ PROPS = {
         "world": "S", "level": "exploration",
         "rule": "C02-style histories (memtable + ordered + out-of-order + compacted + merged files, partial field sets -> nulls, multi-segment chunks); after every operation "
                 "seeded pairs (aggregate, plain select) over the same field, filter, time range (ends inside / on the edge of / outside segments and files) and grouping "
-                "(all tags, host only, epoch-aligned time bucket), asc/desc, functions count sum min max first last on all field types they apply to, in the forms bare "
+                "(all tags = one series per group; host only in a third of the pairs = several series per tag set, merged by the store-level AggTagSetCursor; epoch-aligned time bucket), numeric values negative for all / some series / every third slot in 3 of 5 cases, functions count sum min max first last on all field types they apply to, in the forms bare "
                 "(pre-aggregation shortcut eligible), exact-statistics hint, time bucket, field filter. Oracle: aggregate = function over the rows the engine's own plain "
                 "select returns. The bare form is skipped when a (series,timestamp) in range was written in more than one flush generation (the statement's exclusion). "
                 "evaluations = runs + compared pairs. mean is sum/count and not queried separately.",
         "eval_extra": ["agg_pairs"], "probes": ["out-of-order file present", "compacted file (level>0) present"],
         "assumptions": ["aggregates are executed the way the repository's own tests do: CreateCursor + ChunkReader with call reader-ops (series plan nil) + StreamAggregateTransform; the sql-side planner is not in the loop",
                         "1 WAL partition (C01's defect kept out)", "float sums compared with 1e-9 relative tolerance; generated floats are multiples of 1/8"],
-        "quick": {"runs": 1500, "budget_s": 150, "workers": 14},
+        "quick": {"runs": 6000, "budget_s": 150, "workers": 14},
         "thorough": {"runs": 40000, "budget_s": 1800, "workers": 16},
     },
 }
